@@ -31,7 +31,8 @@ ASSUMPTIONS = [
 ]
 
 SPECIAL = " ,=\"'\\"
-ALPHA = "abXY09_-./:#%" + SPECIAL + SPECIAL + "äλ✓"
+# other whitespace than U+0020 is ordinary text in the line protocol (only line breaks cannot be expressed)
+ALPHA = "abXY09_-./:#%" + SPECIAL + SPECIAL + "äλ✓" + "\u00a0\u3000\t"
 NAME_ALPHA = ALPHA.replace("%", "")
 
 
@@ -96,7 +97,8 @@ def line_case(draw):
         "defaults": defaults,
         "args": args,
         "res": draw(st.one_of(st.none(), st.integers(1, 10**4), st.sampled_from([1, 10, 60, 3600]))),
-        "created": draw(st.one_of(st.floats(0, 4e9), st.integers(0, 4 * 10**9).map(float))),
+        # record times: mostly after the epoch, some before it (rounding *down* matters there)
+        "created": draw(st.one_of(st.floats(0, 4e9), st.integers(0, 4 * 10**9).map(float), st.floats(-4e9, 0), st.integers(-10**6, 0).map(float))),
     }
 
 
